@@ -1,6 +1,7 @@
 package main
 
 import (
+	"fmt"
 	"strconv"
 	"strings"
 
@@ -120,3 +121,31 @@ func init() {
 	handlers["detailrerun"] = detailRerunLine
 	handlers["detailobs"] = detailObsLine
 }
+
+// detailfail <cfg> <seed> <hexgood> <hexbad> : a successful run, its text read, then a run expected to fail; reports what is published after it
+func detailFailLine(t []string) string {
+	if len(t) != 5 {
+		return "bad-op"
+	}
+	cfg, ok := parseCfg(t[1])
+	good, ok2 := unhx(t[3])
+	bad, ok3 := unhx(t[4])
+	if !ok || !ok2 || !ok3 {
+		return "bad-op"
+	}
+	vm, ok := newVM(cfg, t[2])
+	if !ok {
+		return "bad-op"
+	}
+	if err := vm.Run(good); err != nil {
+		return "err-first " + hx(err.Error())
+	}
+	_ = vm.GetDetailText()
+	err := vm.Run(bad)
+	if err == nil {
+		return "ok-second " + canon(vm.Ret)
+	}
+	return fmt.Sprintf("failed spans=%d d=%s", len(vm.DetailSpans), hx(vm.GetDetailText()))
+}
+
+func init() { handlers["detailfail"] = detailFailLine }
